@@ -206,3 +206,14 @@ def run(ck, prog):
     svd_guarded_division(ck, prog)
     ck.floor("E2d-sign", 1)
     ck.floor("E2-guarded-division", 1)
+
+
+# ------------------------------------------------------------------ generic: rows/cols (outer/inner) mix-up of locally allocated buffers
+_run_pre_dimension = run
+DIMENSION_FILES = ['src/linalg/cholesky.rs', 'src/linalg/lu.rs', 'src/linalg/naive/dense_matrix.rs', 'src/linalg/qr.rs', 'src/linalg/svd.rs']
+
+
+def run(ck, prog):
+    _run_pre_dimension(ck, prog)
+    from sa import dimension
+    dimension.run_rule(ck, prog, set(DIMENSION_FILES))
